@@ -305,3 +305,35 @@ def dry_shows_what_is_written(m00: bool, m01: bool, m10: bool, m11: bool, order:
             if old_line != new_line and (("-" + old_line) not in text or ("+" + new_line) not in text):
                 return False
     return True
+
+
+def print_diff_verbatim(d: str) -> bool:
+    """what --dry prints (not a terminal) is exactly the diff text computed by diff(): no re-splitting, no recoding
+    pre: len(d) <= PLEN
+    post: _
+    """
+    import click
+    import sys
+    out = []
+    saved_echo, saved_stdout = click.echo, sys.stdout
+
+    class _NoTty:
+        def isatty(self):
+            return False
+
+        def write(self, s):
+            return len(s)
+
+        def flush(self):
+            pass
+
+    click.echo = lambda message=None, *a, **k: out.append(message)
+    sys.stdout = _NoTty()
+    try:
+        cli._print_diff_str(d)
+    finally:
+        click.echo, sys.stdout = saved_echo, saved_stdout
+    return len(out) == 1 and out[0] == d
+
+
+PLEN = P.get("plen", 3)
